@@ -11,7 +11,7 @@ theorem step_q (env : Env R) (s : State R) (t : Thread R) : (step env s t).2.q =
   | start => cases q <;> simp [step]
   | get idx => simp only [step]; split <;> rfl
   | read idx => simp only [step]; split <;> (try split) <;> simp
-  | put idx r => rfl
+  | put idx r => simp only [step]; split <;> rfl
   | comp r => simp only [step]; split <;> simp
   | fin => cases q <;> rfl
   | done => rfl
@@ -22,7 +22,7 @@ theorem step_closed (env : Env R) (s : State R) (t : Thread R) : (step env s t).
   | start => cases q <;> simp [step]
   | get idx => simp only [step]; split <;> rfl
   | read idx => simp only [step]; split <;> (try split) <;> rfl
-  | put idx r => rfl
+  | put idx r => simp only [step]; split <;> rfl
   | comp r => simp only [step]; split <;> rfl
   | fin => cases q <;> rfl
   | done => rfl
@@ -33,7 +33,7 @@ theorem step_pc_ne_start (env : Env R) (s : State R) (t : Thread R) : (step env 
   | start => cases q <;> simp [step, advance_pc_ne_start]
   | get idx => simp only [step]; split <;> simp
   | read idx => simp only [step]; split <;> (try split) <;> simp [advance_pc_ne_start]
-  | put idx r => simp [step]
+  | put idx r => simp only [step]; split <;> simp
   | comp r => simp only [step]; exact advance_pc_ne_start _
   | fin => cases q <;> simp [step]
   | done => simp [step]
@@ -47,10 +47,12 @@ theorem step_cacheInv {env : Env R} {s : State R} {t : Thread R} (hc : CacheInv 
   | get idx => simp only [step]; split <;> exact hc
   | read idx => simp only [step]; split <;> (try split) <;> exact hc
   | put idx r =>
-    intro i x hm
-    rcases mem_cacheInsert hm with ⟨h1, h2⟩ | h
-    · subst h1; subst h2; exact ht.put_ok _ _ rfl
-    · exact hc i x h
+    simp only [step]; split
+    · exact hc
+    · intro i x hm
+      rcases mem_cacheInsert hm with ⟨h1, h2⟩ | h
+      · subst h1; subst h2; exact ht.put_ok _ _ rfl
+      · exact hc i x h
   | comp r => simp only [step]; split <;> exact hc
   | fin => cases q <;> exact hc
   | done => exact hc
@@ -78,7 +80,7 @@ theorem step_tinv {env : Env R} {s : State R} {t : Thread R} (ht : TInv env t) :
       · exact tinv_advance hr
   | put idx r =>
     have hr := ht.req_eq (by simp)
-    exact ⟨fun _ => hr, by simp [step], by simp [step]⟩
+    simp only [step]; split <;> exact ⟨fun _ => hr, by simp, by simp⟩
   | comp r =>
     have hr := ht.req_eq (by simp)
     simp only [step]; apply tinv_advance; split <;> exact hr
@@ -125,7 +127,16 @@ theorem step_total {env : Env R} {s : State R} {t : Thread R} (hc : CacheInv env
       split
       · next r h => simp [total, pend, pureStorage_single_some h]
       · next h => rw [total_advance]; simp [total, pend, pureStorage_single_none h]
-  | put idx r => left; simp [step, total, pend]
+  | put idx r =>
+    left
+    simp only [step]; split
+    · next r' h =>
+      -- the object found in the cache is the rule of that index, like the one just read
+      have h1 := hc _ _ (cacheLookup_mem h)
+      have h2 := ht.put_ok _ _ rfl
+      have : r' = r := Option.some.inj (h1.symm.trans h2)
+      subst this; simp [total, pend]
+    · simp [total, pend]
   | comp r =>
     left
     simp only [step, total_advance]
@@ -140,7 +151,7 @@ theorem step_req {env : Env R} {s : State R} {t : Thread R} (hs : t.pc ≠ .star
   | start => exact absurd rfl hs
   | get idx => simp only [step]; split <;> rfl
   | read idx => simp only [step]; split <;> (try split) <;> simp
-  | put idx r => rfl
+  | put idx r => simp only [step]; split <;> rfl
   | comp r => simp only [step]; split <;> simp
   | fin => cases q <;> rfl
   | done => rfl
